@@ -188,6 +188,62 @@ mut("C19", "initial-window-size-check-removed", "pkg/http2/frame.go",
 mut("C19", "window-update-zero-increment-wrong-code", "pkg/http2/frame.go",
     "		return nil, streamError(fh.StreamID, ErrCodeProtocol)\n	}\n	return &WindowUpdateFrame{", "		return nil, streamError(fh.StreamID, ErrCodeFlowControl)\n	}\n	return &WindowUpdateFrame{")
 
+# ---- C15
+mut("C15", "contains-instead-of-prefix", "pkg/reverseproxy/handler.go",
+    'strings.HasPrefix(r.UserAgent(), "kube-probe/")', 'strings.Contains(r.UserAgent(), "kube-probe/")')
+mut("C15", "prefix-without-slash", "pkg/reverseproxy/handler.go",
+    'strings.HasPrefix(r.UserAgent(), "kube-probe/")', 'strings.HasPrefix(r.UserAgent(), "kube-probe")')
+mut("C15", "case-insensitive", "pkg/reverseproxy/handler.go",
+    'strings.HasPrefix(r.UserAgent(), "kube-probe/")', 'strings.HasPrefix(strings.ToLower(r.UserAgent()), "kube-probe/")')
+mut("C15", "probe-also-forwarded", "pkg/reverseproxy/handler.go",
+    "		w.Write([]byte(ProbeResponse))\n		return\n", "		w.Write([]byte(ProbeResponse))\n		go f.reverseProxy.ServeHTTP(discardWriter{}, req.Clone(context.Background()))\n		return\n")
+mut("C15", "probe-also-forwarded", "pkg/reverseproxy/handler.go",
+    'import (\n	"log"', 'import (\n	"context"\n	"log"')
+mut("C15", "probe-also-forwarded", "pkg/reverseproxy/handler.go",
+    "func IsKubernetesProbeRequest(", "type discardWriter struct{}\n\nfunc (discardWriter) Header() http.Header        { return http.Header{} }\nfunc (discardWriter) Write(b []byte) (int, error) { return len(b), nil }\nfunc (discardWriter) WriteHeader(int)             {}\n\nfunc IsKubernetesProbeRequest(")
+mut("C15", "flag-ignored", "fingerproxy.go",
+    "	if *flagEnableKubernetesProbe {", "	if true {")
+mut("C15", "flag-inverted-default", "flags.go",
+    'envWithDefaultBool("ENABLE_KUBERNETES_PROBE", true)', 'envWithDefaultBool("ENABLE_KUBERNETES_PROBE", false)')
+mut("C15", "probe-only-for-get", "pkg/reverseproxy/handler.go",
+    "	if f.IsProbeRequest != nil && f.IsProbeRequest(req) {", "	if f.IsProbeRequest != nil && req.Method != \"POST\" && f.IsProbeRequest(req) {")
+mut("C15", "probe-status-204-on-h2", "pkg/reverseproxy/handler.go",
+    "		w.WriteHeader(ProbeStatusCode)\n", "		if req.ProtoMajor == 2 && len(req.URL.Path) > 3 {\n			w.WriteHeader(204)\n			return\n		}\n		w.WriteHeader(ProbeStatusCode)\n")
+
+# ---- C09
+mut("C09", "client-xff-dropped", "pkg/reverseproxy/handler.go",
+    '	r.Out.Header["X-Forwarded-For"] = r.In.Header["X-Forwarded-For"]\n', "")
+mut("C09", "undo-D2", "pkg/proxyserver/proxyserver.go",
+    "	if r.TLS == nil {\n		if md, ok", "	if r.TLS == nil && r.ProtoMajor == 2 {\n		if md, ok")
+mut("C09", "xfh-from-out-host", "pkg/reverseproxy/handler.go",
+    "	r.SetXForwarded()\n", '	r.SetXForwarded()\n	r.Out.Header.Set("X-Forwarded-Host", r.Out.Host)\n')
+mut("C09", "client-xfp-wins", "pkg/reverseproxy/handler.go",
+    "	r.SetXForwarded()\n", '	r.SetXForwarded()\n	if v := r.In.Header["X-Forwarded-Proto"]; len(v) > 0 {\n		r.Out.Header["X-Forwarded-Proto"] = v\n	}\n')
+mut("C09", "forwarded-passed-on", "pkg/reverseproxy/handler.go",
+    "	r.SetXForwarded()\n", '	r.SetXForwarded()\n	if v := r.In.Header["Forwarded"]; len(v) > 1 {\n		r.Out.Header["Forwarded"] = v\n	}\n')
+mut("C09", "h1-remote-addr-is-local", "pkg/hack/tls_clienthello_conn.go",
+    "func (c *TLSClientHelloConn) RemoteAddr() net.Addr               { return c.Conn.RemoteAddr() }", "func (c *TLSClientHelloConn) RemoteAddr() net.Addr               { return c.Conn.LocalAddr() }")
+mut("C09", "xff-replaced-when-three-lines", "pkg/reverseproxy/handler.go",
+    '	r.Out.Header["X-Forwarded-For"] = r.In.Header["X-Forwarded-For"]\n', '	if len(r.In.Header["X-Forwarded-For"]) < 3 {\n		r.Out.Header["X-Forwarded-For"] = r.In.Header["X-Forwarded-For"]\n	}\n')
+
+# ---- C05
+mut("C05", "undo-D1", "pkg/reverseproxy/handler.go",
+    "		r.Out.Header.Del(k)\n", "")
+mut("C05", "add-instead-of-set", "pkg/reverseproxy/handler.go",
+    "			r.Out.Header.Set(k, v)", "			r.Out.Header.Add(k, v)")
+mut("C05", "add-instead-of-set", "pkg/reverseproxy/handler.go",
+    "		r.Out.Header.Del(k)\n", "		if len(r.Out.Header.Values(k)) > 4 {\n			r.Out.Header.Del(k)\n		}\n")
+mut("C05", "delete-only-on-error", "pkg/reverseproxy/handler.go",
+    "		r.Out.Header.Del(k)\n		if v, err := hj.GetHeaderValue(r.In); err != nil {\n", "		if v, err := hj.GetHeaderValue(r.In); err != nil {\n			r.Out.Header.Del(k)\n")
+mut("C05", "case-sensitive-delete", "pkg/reverseproxy/handler.go",
+    "		r.Out.Header.Del(k)\n", "		delete(r.Out.Header, k)\n")
+mut("C05", "delete-on-inbound-not-outbound", "pkg/reverseproxy/handler.go",
+    "		r.Out.Header.Del(k)\n", "		r.In.Header.Del(k)\n")
+mut("C05", "empty-client-value-kept", "pkg/reverseproxy/handler.go",
+    "		r.Out.Header.Del(k)\n", "		if r.Out.Header.Get(k) != \"\" {\n			r.Out.Header.Del(k)\n		}\n")
+mut("C05", "h2-only-delete", "pkg/reverseproxy/handler.go",
+    "		r.Out.Header.Del(k)\n", "		if r.In.ProtoMajor == 2 {\n			r.Out.Header.Del(k)\n		}\n")
+
 def run(argv):
     props = [a for a in argv if a.startswith("C")]
     sub = None
